@@ -1510,7 +1510,7 @@ class IPv4Obj(object):
             arg = int(arg)
             # get the max offset for this subnet...
             max_offset = self.as_decimal_broadcast - self.as_decimal_network
-            if arg <= max_offset:
+            if 0 <= arg <= max_offset:
                 self.ip_object = IPv4Address(self.as_decimal_network + arg)
             else:
                 raise AddressValueError(f"{self}.network_offset({arg=}) exceeds the boundaries of '{self.as_cidr_net}'")
@@ -2202,7 +2202,7 @@ class IPv6Obj(object):
             arg = int(arg)
             # get the max offset for this subnet...
             max_offset = self.as_decimal_network_maxint - self.as_decimal_network
-            if arg <= max_offset:
+            if 0 <= arg <= max_offset:
                 self.ip_object = IPv6Address(self.as_decimal_network + arg)
             else:
                 raise AddressValueError(f"{self}.network_offset({arg=}) exceeds the boundaries of '{self.as_cidr_net}'")
